@@ -204,16 +204,23 @@ Definition assign (st : rinfo) (r : region) : rinfo :=
      (fun s => repl id r (leaders st s)) (fun s => repl id r (followers st s))
      (fun s => repl id r (learners st s)) (fun s => repl id r (pendings st s)) (bad st).
 
+(* The loops of removeRegionFromSubTree / SetRegion / updateSubTreeStat walk over a peer list and
+   touch, per peer, the tree of that peer's store in one or several of the four independent maps.
+   Updates of different maps commute, so each loop is written as one fold per map: `fam_fold g c ps fm`
+   applies g to the tree of p's store for every p in ps (in order) that satisfies c. *)
+Definition fam_fold (g : rtree -> rtree) (c : peer -> bool) (ps : list peer) (fm : fam) : fam :=
+  fold_left (fun f p => if c p then fam_set f (p_store p) (g (f (p_store p))) else f) ps fm.
+
+Definition all_peers (_ : peer) : bool := true.
+Definition is_leader (r : region) (p : peer) : bool := p_id p =? r_leader r.
+Definition not_leader (r : region) (p : peer) : bool := negb (is_leader r p).
+
 (* removeRegionFromSubTree *)
 Definition remove_from_subtrees (st : rinfo) (r : region) : rinfo :=
-  fold_left (fun acc p =>
-               let s := p_store p in
-               RI (regs acc) (tree acc)
-                  (fam_set (leaders acc) s (remove (leaders acc s) r))
-                  (fam_set (followers acc) s (remove (followers acc s) r))
-                  (fam_set (learners acc) s (remove (learners acc s) r))
-                  (fam_set (pendings acc) s (remove (pendings acc s) r)) (bad acc))
-            (r_peers r) st.
+  let g := fun t => remove t r in
+  RI (regs st) (tree st)
+     (fam_fold g all_peers (r_peers r) (leaders st)) (fam_fold g all_peers (r_peers r) (followers st))
+     (fam_fold g all_peers (r_peers r) (learners st)) (fam_fold g all_peers (r_peers r) (pendings st)) (bad st).
 
 (* RemoveRegion *)
 Definition remove_region (st : rinfo) (r : region) : rinfo :=
@@ -226,49 +233,21 @@ Definition mark_bad (st : rinfo) : rinfo :=
 
 (* the four loops at the end of SetRegion *)
 Definition add_to_subtrees (st : rinfo) (r : region) : rinfo :=
-  let st1 := fold_left (fun acc p =>
-                 let s := p_store p in
-                 if p_id p =? r_leader r
-                 then RI (regs acc) (tree acc) (fam_set (leaders acc) s (fst (update (leaders acc s) r)))
-                         (followers acc) (learners acc) (pendings acc) (bad acc)
-                 else RI (regs acc) (tree acc) (leaders acc) (fam_set (followers acc) s (fst (update (followers acc s) r)))
-                         (learners acc) (pendings acc) (bad acc))
-              (voters r) st in
-  let st2 := fold_left (fun acc p =>
-                 let s := p_store p in
-                 RI (regs acc) (tree acc) (leaders acc) (followers acc)
-                    (fam_set (learners acc) s (fst (update (learners acc s) r))) (pendings acc) (bad acc))
-              (learners_of r) st1 in
-  fold_left (fun acc p =>
-               let s := p_store p in
-               RI (regs acc) (tree acc) (leaders acc) (followers acc) (learners acc)
-                  (fam_set (pendings acc) s (fst (update (pendings acc s) r))) (bad acc))
-            (r_pending r) st2.
+  let g := fun t => fst (update t r) in
+  RI (regs st) (tree st)
+     (fam_fold g (is_leader r) (voters r) (leaders st)) (fam_fold g (not_leader r) (voters r) (followers st))
+     (fam_fold g all_peers (learners_of r) (learners st)) (fam_fold g all_peers (r_pending r) (pendings st)) (bad st).
 
 (* updateSubTreeStat (a store without a tree is skipped: `if tree, ok := ...`; an empty model tree
    stands for both "no tree" and "empty tree", and updateStat on it is unobservable because
    TotalSize() of an empty tree is 0 — but the counter is kept faithfully for the non-empty case) *)
-Definition stat_if_present (t : rtree) (origin r : region) : rtree :=
+Definition stat_if_present (origin r : region) (t : rtree) : rtree :=
   if rt_len t =? 0 then t else update_stat t origin r.
 Definition update_subtree_stat (st : rinfo) (origin r : region) : rinfo :=
-  let st1 := fold_left (fun acc p =>
-                 let s := p_store p in
-                 if p_id p =? r_leader r
-                 then RI (regs acc) (tree acc) (fam_set (leaders acc) s (stat_if_present (leaders acc s) origin r))
-                         (followers acc) (learners acc) (pendings acc) (bad acc)
-                 else RI (regs acc) (tree acc) (leaders acc) (fam_set (followers acc) s (stat_if_present (followers acc s) origin r))
-                         (learners acc) (pendings acc) (bad acc))
-              (voters r) st in
-  let st2 := fold_left (fun acc p =>
-                 let s := p_store p in
-                 RI (regs acc) (tree acc) (leaders acc) (followers acc)
-                    (fam_set (learners acc) s (stat_if_present (learners acc s) origin r)) (pendings acc) (bad acc))
-              (learners_of r) st1 in
-  fold_left (fun acc p =>
-               let s := p_store p in
-               RI (regs acc) (tree acc) (leaders acc) (followers acc) (learners acc)
-                  (fam_set (pendings acc) s (stat_if_present (pendings acc s) origin r)) (bad acc))
-            (r_pending r) st2.
+  let g := stat_if_present origin r in
+  RI (regs st) (tree st)
+     (fam_fold g (is_leader r) (voters r) (leaders st)) (fam_fold g (not_leader r) (voters r) (followers st))
+     (fam_fold g all_peers (learners_of r) (learners st)) (fam_fold g all_peers (r_pending r) (pendings st)) (bad st).
 
 (* the part of SetRegion after the item has been fixed *)
 Definition remove_overlapped (st : rinfo) (ov : list region) : rinfo :=
@@ -454,6 +433,7 @@ Definition robs_eqb (a b : robs) : bool :=
   | RoNums x, RoNums y => zlist_eqb x y
   | RoRandSet n c, RoReg None => n
   | RoRandSet n c, RoReg (Some y) => existsb (ref_eqb y) c
+  | RoBad x, RoBad y => String.eqb x y      (* model and code agree on the anomaly (malformed stream only) *)
   | _, _ => false
   end.
 
@@ -464,7 +444,14 @@ Definition robs_eqb (a b : robs) : bool :=
 Definition valid_range (r : region) : bool := is_nil (r_end r) || key_ltb (r_start r) (r_end r).
 Definition pending_in_peers (r : region) : bool :=
   forallb (fun p => existsb (fun q => p_store q =? p_store p)%Z (r_peers r)) (r_pending r).
-Definition wf_region (r : region) : bool := valid_range r && pending_in_peers r.
+Fixpoint nodup_stores (l : list peer) : bool :=
+  match l with
+  | [] => true
+  | p :: t => negb (existsb (fun q => p_store q =? p_store p)%Z t) && nodup_stores t
+  end.
+Definition wf_peers (r : region) : bool :=
+  pending_in_peers r && nodup_stores (r_peers r) && nodup_stores (r_pending r).
+Definition wf_region (r : region) : bool := valid_range r && wf_peers r.
 
 Definition overlaps (a b : region) : bool :=
   (is_nil (r_end a) || key_ltb (r_start b) (r_end a)) && (is_nil (r_end b) || key_ltb (r_start a) (r_end b)).
@@ -563,9 +550,12 @@ Definition sig_of (o : rop) : string :=
 Definition op_in_domain (o : rop) : bool :=
   match o with OSet r => wf_region r | _ => true end.
 
-(* a pending peer on a store where the region has no peer: the excluded input class *)
+(* the excluded input classes: a pending peer on a store where the region has no peer; two peers
+   (or two pending peers) of one region on the same store *)
 Definition foreign_pending (o : rop) : bool :=
   match o with OSet r => valid_range r && negb (pending_in_peers r) | _ => false end.
+Definition shared_store (o : rop) : bool :=
+  match o with OSet r => valid_range r && negb (nodup_stores (r_peers r) && nodup_stores (r_pending r)) | _ => false end.
 
 Fixpoint ri_monitor_from (l : spec) (ops : list rop) (obs : list robs) : option string :=
   match ops, obs with
@@ -577,14 +567,16 @@ Fixpoint ri_monitor_from (l : spec) (ops : list rop) (obs : list robs) : option 
   | _, _ => None
   end.
 
-(* The monitor speaks only about histories inside the domain of the property (valid key
-   ranges).  A history that contains a foreign pending peer is judged too, with its own
-   signature, because the specification still says what the counts must be. *)
+(* The monitor speaks about histories of regions with valid key ranges.  A history that contains a
+   malformed peer list (one of the two excluded classes) is judged too, but its disagreement with the
+   specification is reported under the signature of that class. *)
 Definition ri_monitor (ops : list rop) (obs : list robs) : option string :=
   if forallb (fun o => match o with OSet r => valid_range r | _ => true end) ops then
     match ri_monitor_from [] ops obs with
     | Some sg => if existsb foreign_pending ops
                  then Some "C07:pending-peer-outside-peers-leaves-stale-pending-entry"
+                 else if existsb shared_store ops
+                 then Some "C07:two-peers-on-one-store-statistics-counted-twice"
                  else Some sg
     | None => None
     end
